@@ -67,6 +67,12 @@ def extra_scenarios(tier, seed):
             "design": design.tolist(), "expect": "unknown", "fam": "random"})
         if sum(out[-1]["rw"]) == 0:
             out[-1]["rw"][0] = 1
+        if "std" in out[-1]["est"]:
+            # larger random ensembles: keep gradient-only failures away from stddev functions (the squared-gradient projection
+            # needs small denominators, which only the enumerated families guarantee)
+            out[-1]["pms"] = 1
+            for row in out[-1]["nanP"]:
+                row[0] = 0
         # objective columns must have distinct values for unique rankings: guaranteed only in the TLC families;
         # random scenarios therefore use no filter when an objective column has ties
         a = np.array(out[-1]["a"]); b = np.array(out[-1]["b"]); x = np.array([1, -1, 2])
